@@ -445,3 +445,79 @@ func TestVerifBreakerConcurrent(t *testing.T) {
 		})
 	}
 }
+
+// The named registry under concurrent first use: every caller of one name ends up on the
+// same breaker, which holds exactly one outcome per admitted call.
+func TestVerifBreakerRegistryConcurrent(t *testing.T) {
+	defer vrt.WriteReport()
+	logx.Disable()
+	stat.SetReporter(nil)
+	bound := 2
+	if vrt.Thorough() {
+		bound = 3
+	}
+	for i, ks := range [][]string{{"fail", "fail"}, {"ok", "fail"}, {"fail", "get"}, {"fail", "fail", "ok"}, {"nop", "fail"}} {
+		if !vrt.Shard(60 + i) {
+			continue
+		}
+		ks := ks
+		vrt.Explore(vrt.Options{Name: fmt.Sprintf("breaker/registry-concurrent/%s", strings.Join(ks, "+")), Bound: bound, Prune: true, Budget: vrt.FairBudget(2)}, func(r *vrt.Run) {
+			lock.Lock()
+			breakers = make(map[string]Breaker)
+			lock.Unlock()
+			const name = "fresh-name"
+			var wg sync.WaitGroup
+			var mu sync.Mutex
+			seen := map[Breaker]bool{}
+			nop := false
+			for _, k := range ks {
+				k := k
+				wg.Add(1)
+				go func() {
+					defer wg.Done()
+					switch k {
+					case "ok":
+						Do(name, func() error { return nil })
+					case "fail":
+						Do(name, func() error { return errBoom })
+					case "nop":
+						NoBreakerFor(name)
+						mu.Lock()
+						nop = true
+						mu.Unlock()
+						return
+					}
+					b := Get(name)
+					mu.Lock()
+					seen[b] = true
+					mu.Unlock()
+				}()
+			}
+			wg.Wait()
+			final := Get(name)
+			r.Outcome("instances=%d nop=%v", len(seen), nop)
+			if nop {
+				return // NoBreakerFor racing with first use: which one wins is not specified
+			}
+			if len(seen) != 1 || !seen[final] {
+				r.Failf("callers of one breaker name saw %d different breaker instances", len(seen))
+				return
+			}
+			gb := final.(*circuitBreaker).throttle.(loggedThrottle).internalThrottle.(*googleBreaker)
+			acc, total := gb.history()
+			var wantAcc, wantTotal int64
+			for _, k := range ks {
+				switch k {
+				case "ok":
+					wantAcc++
+					wantTotal++
+				case "fail":
+					wantTotal++
+				}
+			}
+			if acc != wantAcc || total != wantTotal {
+				r.Failf("breaker %q holds accepts=%d total=%d after calls %v, want %d/%d (outcomes recorded elsewhere are lost)", name, acc, total, ks, wantAcc, wantTotal)
+			}
+		})
+	}
+}
